@@ -17,6 +17,14 @@ Third round: the retry statements are (also) about the PUBLIC object the applica
   * `C20_facts_locks`, `C20_unblockers_never_wait`, `C20_parked_first_call_can_be_closed`
                               Close and the deadline setters need no mutex that a goroutine
                               parked in the header peek (or in the selected stack) holds
+
+Tie by translation (last section): `ProtocolDetectConn.ReadFirstHeader` / `Read` are re-translated from
+pa/conn.go on every run (`Gotlcp.Src.pa`, over a scripted transport) and `Gotlcp.Tie.PA` proves
+  * `C20_src_no_byte_lost`, `C20_src_detect_then_serve`, `C20_src_version_bytes` the property DIRECTLY about the
+                              translated text, for every script (data together with errors, empty
+                              steps, errors anywhere), every call sequence, every buffer
+  * `C20_src_refines_model`   the translated functions compute what `Model.PA` computes with the
+                              parameters `factsP` has (which is what justifies those four literals)
 -/
 import Gotlcp.Lemmas.PA
 import Gotlcp.Lemmas.PARetry
@@ -24,6 +32,7 @@ import Gotlcp.Lemmas.Locks
 import Gotlcp.Model.PAFacts
 import Gotlcp.Model.PALock
 import Gotlcp.Generated.Facts
+import Gotlcp.Tie.PA
 
 set_option linter.unusedSimpArgs false
 set_option linter.unusedVariables false
@@ -43,10 +52,10 @@ def ofSpec : Spec.PA.Verdict → Route
 /-- a fresh adapter connection over the transport script `evs` -/
 def fresh (evs : List Ev) : SC := { p := { evs := evs } }
 
-/-- the facts of the source the other theorems rely on -/
+/-- the facts of the source the other theorems rely on.  (What `ReadFirstHeader` does — header length 5,
+version bytes at 1 and 2, `io.ReadFull` into the kept buffer, its error returned — is no longer a text fact:
+`factsP` holds literals that `C20_src_refines_model` ties to the translated function.) -/
 theorem C20_facts :
-    Facts.pa.headerLen = 5 ∧ Facts.pa.majorIndex = 1 ∧ Facts.pa.minorIndex = 2 ∧
-    Facts.pa.headerViaReadFull = true ∧ Facts.pa.headerResumable = true ∧
     Facts.pa.dispatch = [(1, 1, 1, 1, 1), (3, 2, 2, 2, 1)] ∧
     Facts.pa.dispatchOnMajor = true ∧ Facts.pa.dispatchDefaultUnsupported = true ∧
     Facts.pa.detectReturnsHeaderErr = true ∧ Facts.pa.unsupportedSentinelTyped = true ∧
@@ -526,5 +535,188 @@ example : (attempts factsP ⟨true, true⟩ 2
     (attempts factsP ⟨true, true⟩ 2
       (fresh [.data [0x16, 0x03, 0x03], .timeout, .data [0x00, 0x01, 0x01, 0x00, 0x00, 0x2a]])).1
     = [.io .timeout, .tls] := by decide
+
+/-! ### the translated source: `Gotlcp.Src.pa`, regenerated from pa/conn.go on every run
+
+`ProtocolDetectConn.ReadFirstHeader`, `ProtocolDetectConn.Read` and `protocolVersion`, statement by statement, over
+the scripted transport `goTransport` (a list of `readStep {data, err}`: the most one `Read` returns and the error
+it reports once the step is used up — so data TOGETHER with an error, empty reads and errors anywhere are all
+scripts; the end of the script is `io.EOF`) with `goTransport.readFull` = `io.ReadFull`.  The statements below are
+about that text, not about `Model.PA`. -/
+
+section Src
+open Gotlcp.Src.pa
+open Gotlcp.Tie.PA
+
+/-- everything the translator was asked for was translated -/
+theorem C20_src_translated : Src.untranslated = [] := by decide
+
+/-- a fresh detecting connection over a transport script (what `NewProtocolSwitchServerConn` builds) -/
+def srcFresh (script : List readStep) : ProtocolDetectConn := { Conn := { script := script } }
+
+/-- **No byte is lost, duplicated or reordered (translated code).**  For EVERY connection state, every transport
+script in it and every sequence of `ReadFirstHeader` / `Read(b)` calls with arbitrary buffers, interleaved in any
+way in which each call is made in a state in which it is allowed (`ReadFirstHeader` while the header is peeked:
+no buffer yet, or the five-byte buffer with fill mark ≤ 5; `Read` when nothing of the buffer is unfilled): every
+call returns — no Go panic, the bound of the translated `io.ReadFull` loop is never reached — and the bytes the
+`Read` calls handed out (`b[:n]` of each), followed by the header bytes still held and all data still in the
+script, are exactly the bytes that were pending at the start. -/
+theorem C20_src_no_byte_lost (c : ProtocolDetectConn) (calls : List Call) (h : Disciplined c calls) :
+    ∃ c' outs, run c calls = .ok (c', outs) ∧ outs.length = calls.length ∧
+      deliveredBytes outs ++ pendingBytes c' = pendingBytes c :=
+  no_byte_lost calls c h
+
+/-- … and the single steps this is the induction of (each for every state allowed, every script, every buffer):
+`ReadFirstHeader` changes nothing pending, keeps the five-byte buffer, and a nil return means the header is
+complete; `Read` hands out a prefix of what is pending (`0 ≤ n ≤ len(b)`, the rest of `b` untouched) and never
+touches the version bytes. -/
+theorem C20_src_steps :
+    (∀ c : ProtocolDetectConn, PeekInv c →
+      ∃ c' e, ProtocolDetectConn.ReadFirstHeader c = .ok (c', e) ∧ PeekInv c' ∧
+        pendingBytes c' = pendingBytes c ∧ (e = none → Ready c')) ∧
+    (∀ (c : ProtocolDetectConn) (b : List (BitVec 8)), Full c →
+      ∃ c' b' n e, ProtocolDetectConn.Read c b = .ok (c', b', n, e) ∧ 0 ≤ n ∧ n ≤ (b.length : Int) ∧
+        b'.length = b.length ∧ b'.drop n.toNat = b.drop n.toNat ∧
+        b'.take n.toNat ++ pendingBytes c' = pendingBytes c ∧ Full c' ∧
+        ProtocolDetectConn.protocolVersion c' = ProtocolDetectConn.protocolVersion c) := by
+  refine ⟨?_, ?_⟩
+  · intro c h
+    obtain ⟨c', e, he, h1, h2, h3, hp, _, _, hok⟩ := rfh_step c h
+    exact ⟨c', e, he, Or.inr ⟨h1, h2, h3⟩, hp, fun h0 => ⟨h1, hok h0⟩⟩
+  · intro c b h
+    obtain ⟨c', b', n, e, he, h1, h2, h3, h4, h5, h6, h7, h8⟩ := read_step c b h
+    refine ⟨c', b', n, e, he, h1, h2, h3, h4, h5, h6, ?_⟩
+    simp only [ProtocolDetectConn.protocolVersion, Id.run, pure, h7, h8]
+
+/-- **`detect`, then the serving stack (translated code).**  A fresh connection over ANY script; `k` calls of
+`ReadFirstHeader`, going on after whatever errors (this is `detect` being retried): all return, hand nothing out,
+lose nothing.  If one of them returned nil then the client had sent at least five bytes, `protocolVersion()` is
+bytes 1 and 2 of the client's stream — the routing input — and EVERY sequence of `Read(b)` calls that follows (the
+serving stack, any buffer sizes) returns and hands out, followed by what is still pending, exactly the client's
+stream from its first byte; the version bytes never change again. -/
+theorem C20_src_detect_then_serve (script : List readStep) (k : Nat) (bufs : List (List (BitVec 8))) :
+    ∃ c1 outs1, run (srcFresh script) (List.replicate k .rfh) = .ok (c1, outs1) ∧ outs1.length = k ∧
+      deliveredBytes outs1 = [] ∧ pendingBytes c1 = scriptData script ∧
+      ((∃ o ∈ outs1, o.err = none) →
+        5 ≤ (scriptData script).length ∧
+        (scriptData script)[1]? = some (ProtocolDetectConn.protocolVersion c1).1 ∧
+        (scriptData script)[2]? = some (ProtocolDetectConn.protocolVersion c1).2 ∧
+        ∃ c2 outs2, run c1 (bufs.map .read) = .ok (c2, outs2) ∧ outs2.length = bufs.length ∧
+          deliveredBytes outs2 ++ pendingBytes c2 = scriptData script ∧
+          ProtocolDetectConn.protocolVersion c2 = ProtocolDetectConn.protocolVersion c1) := by
+  have hp0 : pendingBytes (srcFresh script) = scriptData script := by
+    simp [pendingBytes, held, srcFresh]
+  obtain ⟨c1, os1, hr, hl, hd, hp, hrest⟩ := detect_then_serve (srcFresh script) (Or.inl rfl) k bufs
+  rw [hp0] at hp hrest
+  refine ⟨c1, os1, hr, hl, hd, hp, ?_⟩
+  intro hsome
+  obtain ⟨h5, hmj, hmn, c2, os2, hr2, hl2, hp2, v1, v2⟩ := hrest hsome
+  refine ⟨h5, hmj, hmn, c2, os2, hr2, hl2, hp2, ?_⟩
+  simp only [ProtocolDetectConn.protocolVersion, Id.run, pure, v1, v2]
+
+/-- **The version bytes (translated code).**  From any state in which the header peek may start, a
+`ReadFirstHeader` that returns nil leaves in `(major, minor)` bytes 1 and 2 of the bytes that were pending — for a
+fresh connection: of the client's stream.  `detect` switches on exactly this `major` (fact `dispatchOnMajor`,
+`C20_dispatch`). -/
+theorem C20_src_version_bytes (c : ProtocolDetectConn) (h : PeekInv c) (c' : ProtocolDetectConn)
+    (hok : ProtocolDetectConn.ReadFirstHeader c = .ok (c', none)) :
+    (pendingBytes c)[1]? = some c'.major ∧ (pendingBytes c)[2]? = some c'.minor ∧
+      c'.recordHeader = (pendingBytes c).take 5 := by
+  obtain ⟨c'', e, he, h1, h2, h3, hp, hmj, hmn, hfull⟩ := rfh_step c h
+  rw [hok] at he
+  injection he with he; injection he with hc hee
+  subst hc; subst hee
+  have h5 := hfull rfl
+  have hheld : held c' = c'.recordHeader := held_full (Or.inr (by rw [h1, h5]; decide))
+  rw [← hp]
+  unfold pendingBytes
+  rw [hheld]
+  refine ⟨?_, ?_, ?_⟩
+  · rw [List.getElem?_append_left (by rw [h1]; decide)]; exact hmj
+  · rw [List.getElem?_append_left (by rw [h1]; decide)]; exact hmn
+  · rw [List.take_left' h1]
+
+/-- **The translated code computes the model** (`Model.PA` with the parameters `factsP` has — this is what makes
+`headerLen := 5`, `majorIndex := 1`, `minorIndex := 2`, `resumable := true` there facts of the source).  Under the
+abstraction `cPD` / `cScript` (model event `data c` ↦ a step with `c` and no error, `timeout` ↦ an empty step with
+an error), for every model script:
+  * `goTransport.Read` = `tRead`, `goTransport.readFull` = `readFull` + `readFullErr`, for every buffer;
+  * `ProtocolDetectConn.Read` = `pdRead` in every state, for every buffer;
+  * `ProtocolDetectConn.ReadFirstHeader` = `readFirstHeader factsP` in every state of the invariant `J` (which
+    holds initially and is kept by `readFirstHeader`, and by `pdRead` once the header is complete), and neither
+    panics; hence `k` retried header peeks and any sequence of reads compute the model's states, bytes and
+    errors. -/
+theorem C20_src_refines_model :
+    TreeP factsP ∧
+    (∀ (evs : List Ev) (b : List (BitVec 8)),
+      goTransport.Read { script := cScript evs } b =
+        .ok ({ script := cScript (tRead evs b.length).2.2 },
+          bv (tRead evs b.length).1 ++ b.drop (tRead evs b.length).1.length,
+          ((tRead evs b.length).1.length : Int), (tRead evs b.length).2.1.map cErr)) ∧
+    (∀ (evs : List Ev) (buf : List (BitVec 8)),
+      goTransport.readFull { script := cScript evs } buf =
+        .ok ({ script := cScript (readFull evs buf.length).2.2 },
+          bv (readFull evs buf.length).1 ++ buf.drop (readFull evs buf.length).1.length,
+          ((readFull evs buf.length).1.length : Int),
+          (readFullErr (readFull evs buf.length).1.length buf.length (readFull evs buf.length).2.1).map cErr)) ∧
+    (∀ (s : PD) (b : List (BitVec 8)),
+      ProtocolDetectConn.Read (cPD s) b =
+        .ok (cPD (pdRead s b.length).2.2, bv (pdRead s b.length).1 ++ b.drop (pdRead s b.length).1.length,
+          ((pdRead s b.length).1.length : Int), (pdRead s b.length).2.1.map cErr)) ∧
+    (∀ s : PD, J s →
+      ProtocolDetectConn.ReadFirstHeader (cPD s) =
+          .ok (cPD (readFirstHeader factsP s).2, rfhErr (readFirstHeader factsP s).1) ∧
+        (readFirstHeader factsP s).1 ≠ .panic ∧ J (readFirstHeader factsP s).2) ∧
+    (∀ evs : List Ev, J { evs := evs }) ∧
+    (∀ (s : PD) (n : Nat), J s → MFull s → J (pdRead s n).2.2 ∧ MFull (pdRead s n).2.2) ∧
+    (∀ (k : Nat) (s : PD), J s →
+      run (cPD s) (List.replicate k .rfh) =
+        .ok (cPD (rfhs factsP k s).2, (rfhs factsP k s).1.map fun r => { bytes := [], err := rfhErr r })) ∧
+    (∀ (bufs : List (List (BitVec 8))) (s : PD),
+      run (cPD s) (bufs.map .read) =
+        .ok (cPD (reads s (bufs.map List.length)).2,
+          (reads s (bufs.map List.length)).1.map fun o => { bytes := bv o.1, err := o.2.map cErr })) := by
+  have hP : TreeP factsP := ⟨rfl, rfl, rfl, rfl⟩
+  refine ⟨hP, tie_Read, tie_readFull, tie_pdRead, ?_, J_init, J_pdRead, ?_, tie_reads⟩
+  · intro s h
+    obtain ⟨h1, h2⟩ := tie_readFirstHeader factsP hP s h.pre
+    exact ⟨h1, h2, J_readFirstHeader factsP hP s h⟩
+  · intro k s h
+    exact (tie_rfhs factsP hP k s h).1
+
+/-- non-vacuity, and the shapes the model's transport cannot express: a read time-out after two header bytes, a
+step that carries data AND an error, the first record split over three steps.  Four `ReadFirstHeader` calls
+(two fail, the third completes the header, the fourth is a no-op), then `Read`s with buffers 3, 4, 4, 1: the
+stream comes out whole, then `io.EOF`. -/
+def srcScript1 : List readStep :=
+  [⟨[22#8, 1#8], none⟩, ⟨[], some .other⟩, ⟨[1#8, 0#8], some .other⟩, ⟨[9#8, 77#8, 78#8], none⟩, ⟨[79#8], none⟩]
+
+example : (run (srcFresh srcScript1) [.rfh, .rfh, .rfh, .rfh, .read [0#8, 0#8, 0#8], .read [0#8, 0#8, 0#8, 0#8],
+      .read [0#8, 0#8, 0#8, 0#8], .read [0#8]]).toOption.map (·.2)
+    = some [⟨[], some .other⟩, ⟨[], some .other⟩, ⟨[], none⟩, ⟨[], none⟩, ⟨[22#8, 1#8, 1#8], none⟩,
+        ⟨[0#8, 9#8, 77#8, 78#8], none⟩, ⟨[79#8], none⟩, ⟨[], some .eof⟩] := by decide
+
+example : ((run (srcFresh srcScript1) [.rfh, .rfh, .rfh]).toOption.map
+      fun r => (ProtocolDetectConn.protocolVersion r.1, r.1.recordHeader))
+    = some ((1#8, 1#8), [22#8, 1#8, 1#8, 0#8, 9#8]) ∧ scriptData srcScript1 = [22#8, 1#8, 1#8, 0#8, 9#8, 77#8, 78#8, 79#8] := by
+  decide
+
+/-- the hypothesis `Disciplined` of `C20_src_no_byte_lost` is needed, i.e. the translated code (and the Go code)
+does lose / invent bytes under the two call orders it excludes — orders `detect` never produces (it installs the
+serving stack only after `ReadFirstHeader` returned nil and never calls it again), but `ProtocolDetectConn` is an
+exported type:
+(1) a `Read` while the header is incomplete hands the UNFILLED part of the buffer to the caller as data
+    (`22 1` were read, `0 0 0` are buffer zeros); -/
+example : (run (srcFresh srcScript1) [.rfh, .read [7#8, 7#8, 7#8, 7#8, 7#8, 7#8]]).toOption.map (·.2)
+    = some [⟨[], some .other⟩, ⟨[22#8, 1#8, 0#8, 0#8, 0#8, 1#8], none⟩] := by decide
+
+/-- (2) a `ReadFirstHeader` after a `Read` that took only part of the header re-makes the buffer and drops the
+rest of the header (`1 0 2` never come out). -/
+example : (run (srcFresh [⟨[22#8, 1#8, 1#8, 0#8, 2#8, 50#8, 51#8], none⟩])
+      [.rfh, .read [0#8, 0#8], .rfh, .read [0#8, 0#8, 0#8, 0#8, 0#8, 0#8, 0#8, 0#8]]).toOption.map (·.2)
+    = some [⟨[], none⟩, ⟨[22#8, 1#8], none⟩, ⟨[], some .unexpectedEOF⟩, ⟨[50#8, 51#8, 0#8, 0#8, 0#8], some .eof⟩] := by
+  decide
+
+end Src
 
 end Gotlcp.Props.C20
